@@ -18,19 +18,22 @@ RULE = ("(A) random E37 header fields (session, stream, function, W, SType, syst
         "encoded/decoded by the library vs the reference frame codec; (B) streams of 1-12 frames (data with/without W, "
         "Linktest.req, bodies 0..1 MiB+1) delivered under partitions: whole, every byte, every single cut, all 2-cut "
         "partitions of a 3-frame stream, header-straddling and random cuts; distinct by (stream bytes, partition); "
-        "non-trivial when the partition cuts inside a frame or puts several frames in one segment")
+        "non-trivial when the partition cuts inside a frame or puts several frames in one segment; (C) streams of 1-6 data "
+        "frames whose lengths straddle the TCP receiver's read size (1023/1024/1025, multiples of 1024, 64 KiB) written to a "
+        "real loopback socket in one write / per frame / in 1024-byte chunks / at random cuts, with and without pauses")
 ASSUMPTIONS = ["lib/wire.py implements the E37 frame layout", "the in-memory connection delivers segments exactly as "
                "TcpConnection's receiver thread would (one on_data call per segment, same thread)",
                "data frames use catalogued header-only functions so that body content is irrelevant to decoding"]
 LEVEL_TEXT = ("Runtime monitoring of the real receive path with controlled segmentation; the message_received history "
               "is checked against the sent sequence and across partitions (differential). All single-cut partitions of "
               "every stream and all 2-cut partitions of a fixed 3-frame stream are enumerated; other partitions sampled.")
-LEVEL_NOTE = "The TCP stack itself is not in the loop here (C10 covers the socket path)."
+LEVEL_NOTE = "Parts A and B use the in-memory connection; part C puts the kernel's TCP stack and the library's receiver thread in the loop."
 TECHNIQUE = "runtime history monitor over controlled segmentations + reference frame codec"
 SHARDS = {"quick": 8, "thorough": 16}
 TIMEOUT = {"quick": 300, "thorough": 3000}
 FLOORS = {"oracle.frame_codec": 2000, "oracle.partition": 300, "cut.in_length": 20, "cut.in_header": 20, "cut.in_body": 20,
-          "partition.coalesced": 20, "enumerated.two_cut": 1000}
+          "partition.coalesced": 20, "enumerated.two_cut": 1000, "oracle.socket_stream": 100,
+          "socket.frame_length_multiple_of_receiver_read_size": 30}
 
 HEADER_ONLY = None
 
@@ -256,8 +259,123 @@ def _part_b(ctx):
     sess.rig.close()
 
 
+def _part_c(ctx, nstreams):
+    """The same history oracle over a real loopback socket: the library's own TCP receiver thread (recv size, non-blocking
+    reads) sits between the peer's writes and the framing. Frame lengths straddle the receiver's read size and its multiples."""
+    import socket
+    import threading
+    import time
+
+    import secsgem.hsms as H
+    from lib import ports, stuck
+
+    rng = ctx.rng
+    ho = _header_only()
+    port = ports.free_port(ctx.shard, ctx.nshards)
+    settings = H.HsmsSettings(connect_mode=H.HsmsConnectMode.PASSIVE, address="127.0.0.1", port=port)
+    proto = settings.create_protocol()
+    delivered = []
+    proto.events.message_received += lambda d: delivered.append((d["message"].header.system, d["message"].header.stream,
+                                                                 d["message"].header.function, bytes(d["message"].data)))
+    proto._connection.select_timeout = 0.05  # noqa: SLF001
+    proto.enable()
+    sock = None
+    try:
+        end = time.monotonic() + 5
+        while sock is None and time.monotonic() < end:
+            try:
+                sock = socket.create_connection(("127.0.0.1", port), timeout=1.0)
+            except OSError:
+                time.sleep(0.02)
+        if sock is None:
+            ctx.unsure("part C: could not connect to the passive endpoint")
+            return
+        sock.setsockopt(socket.IPPROTO_TCP, socket.TCP_NODELAY, 1)
+        sock.sendall(wire.hsms_control(wire.SELECT_REQ, 1))
+        sock.settimeout(3.0)
+        got = b""
+        try:
+            while len(got) < 14:
+                chunk = sock.recv(14 - len(got))
+                if not chunk:
+                    break
+                got += chunk
+        except OSError:
+            pass
+        if len(got) < 14 or got[9] != wire.SELECT_RSP:
+            ctx.unsure(f"part C: no Select.rsp from the endpoint ({got.hex()})")
+            return
+        sysgen = itertools.count(0x5000)
+        # total frame length = 14 + body; the receiver reads 1024 bytes at a time
+        special = [1024 - 14, 2048 - 14, 3072 - 14, 1023 - 14, 1025 - 14, 512 - 14, 4096 - 14, 8192 - 14, 1024 * 64 - 14, 0, 1, 1010, 1011]
+        for si in range(nstreams):
+            k = rng.randint(1, 6)
+            spec = []
+            for _ in range(k):
+                blen = rng.choice(special) if rng.random() < 0.7 else rng.randint(0, 5000)
+                st, fn = rng.choice(ho)
+                spec.append((next(sysgen), st, fn, rng.randbytes(blen)))
+            data = b"".join(wire.hsms_data(st, fn, False, sy, body, session=0) for sy, st, fn, body in spec)
+            mode = rng.choice(["one_write", "per_frame", "per_frame_paused", "random_cuts", "1024_chunks", "1024_chunks_paused"])
+            n0 = len(delivered)
+            if mode == "one_write":
+                sock.sendall(data)
+            elif mode.startswith("per_frame"):
+                for sy, st, fn, body in spec:
+                    sock.sendall(wire.hsms_data(st, fn, False, sy, body, session=0))
+                    if mode.endswith("paused"):
+                        time.sleep(0.03)
+            elif mode.startswith("1024_chunks"):
+                for pos in range(0, len(data), 1024):
+                    sock.sendall(data[pos:pos + 1024])
+                    if mode.endswith("paused"):
+                        time.sleep(0.01)
+            else:
+                pos = 0
+                while pos < len(data):
+                    n = rng.choice([1, 13, 14, 1024, 2048, rng.randint(1, 3000)])
+                    sock.sendall(data[pos:pos + n])
+                    pos += n
+                    if rng.random() < 0.3:
+                        time.sleep(0.002)
+            want = [(sy, st, fn, body) for sy, st, fn, body in spec]
+            end = time.monotonic() + 5
+            while time.monotonic() < end and len(delivered) - n0 < len(want):
+                time.sleep(0.002)
+            if delivered[n0:] != want:
+                time.sleep(2.0)      # wall-clock grace before calling a message lost
+            gotm = delivered[n0:]
+            ctx.count("oracle.socket_stream")
+            ctx.case(("C", mode, tuple(len(b) for _, _, _, b in spec)), nontrivial=True)
+            if any((len(b) + 14) % 1024 == 0 for _, _, _, b in spec):
+                ctx.count("socket.frame_length_multiple_of_receiver_read_size")
+            if gotm != want:
+                lost = [hex(w[0]) for w in want if w[0] not in [g[0] for g in gotm]]
+                ctx.violation("socket-delivery-differs-from-sent", {"write_mode": mode, "frame_lengths": [len(b) + 14 for _, _, _, b in spec],
+                                                                    "sent": len(want), "delivered": len(gotm), "lost_systems": lost[:6],
+                                                                    "order_kept": [g[0] for g in gotm] == [w[0] for w in want if w[0] in [g[0] for g in gotm]]})
+                return
+    finally:
+        done = threading.Event()
+
+        @stuck.harness_thread
+        def dis():
+            try:
+                proto.disable()
+            finally:
+                done.set()
+        threading.Thread(target=dis, daemon=True).start()
+        done.wait(5)
+        if sock is not None:
+            try:
+                sock.close()
+            except OSError:
+                pass
+
+
 def run(ctx):
     from lib import vtime
     vtime.install()   # the protocol's 30 s linktest timer must not fire in the middle of a long session
     _part_a(ctx, 600 if ctx.quick else 6000)
     _part_b(ctx)
+    _part_c(ctx, 25 if ctx.quick else 600)
